@@ -12,16 +12,20 @@ import uni_common as U
 import c03_uni as G3
 
 PROPERTY = "C01"
-LEAN_MODULES = ["Proofs.C01.Uni", "Proofs.C01.UniLent", "Proofs.C01.UniSqueeth"]
+LEAN_MODULES = ["Proofs.C01.Uni", "Proofs.C01.UniLent", "Proofs.C01.UniSqueeth", "Proofs.C01.UniTransfer"]
 DRIVERS = ["driver"]
 RULE = ("[uni] random pools (decimals, fee tier, both token orders) and operation sequences (1–10 of add / remove / collect / swap / buy / sell / "
         "rebalance / add by value / transfer out / transfer in / a new bar with fee accrual); after every step get_market_balance and "
         "Broker.get_account_status are compared with a valuation written independently of the code paths (closed-form Uniswap amounts in exact "
-        "Fractions from the raw position fields). Buckets = (last operation, #positions, #transferred, price regime mix, orientation).")
+        "Fractions from the raw position fields). Buckets = (last operation, #positions, #transferred, price regime mix, orientation). "
+        "The count clause (every position counted exactly once) is evaluated too: this broker has no vault, so a position flagged `transferred` "
+        "by a DIRECT call of the public transfer_position_out is counted by nobody (known finding uni.direct-transfer.flagged-position-without-vault, "
+        "Lean witness C01_fails_direct_transfer).")
 TRUSTED = ["[uni] the independent valuation uses the same integer sqrt price as the code (base_unit_price_to_sqrt_price_x96 is a C06/C07 matter) "
            "and exact Fractions for everything else; agreement is required at 1e-28 relative (Decimal rounding of ~10 operations)"]
 ASSUMPTIONS = ["[uni] the account's price vector comes from the same status row (base = row price, quote = 1)"]
 TOL = Fraction(1, 10 ** 28)
+KEY_DIRECT_OUT = "uni.direct-transfer.flagged-position-without-vault"
 
 
 def indep_amounts(s: int, sa: int, sb: int, liq, d0: int, d1: int):
@@ -93,6 +97,12 @@ def check_state(ctx, w, rep, last_op):
     if not close(st.net_value, wallet + ind["net"], scale + abs(wallet)):
         ctx.violate("uni.account.net_value", f"after {last_op}: account net value {st.net_value} != wallet {float(wallet):.12g} + positions {float(ind['net']):.12g}", rep)
     n_tr = sum(1 for p in w.market.positions.values() if p.transferred)
+    # the count clause: this broker holds the pool alone — no vault references anything — so every position must be counted by the pool itself
+    # (C01_uni_counted_exactly_once with no vaults); a flagged one is counted zero times and its value is missing from the account
+    lost = [(k.lower_tick, k.upper_tick, p.liquidity) for k, p in w.market.positions.items() if p.transferred]
+    if lost:
+        ctx.violate(KEY_DIRECT_OUT, f"after {last_op}: position(s) {lost} (lower, upper, liquidity) are flagged `transferred` although no market holds them: "
+                    f"counted 0 times, account net value {st.net_value} omits them", rep)
     ctx.case(f"uni:{last_op}:npos{min(len(w.market.positions), 3)}:transferred{min(n_tr, 2)}:{'q0' if pool.is_token0_quote else 'q1'}")
 
 
